@@ -57,6 +57,8 @@ type streamCase struct {
 	Work        string              `json:"work"`
 	Expected    []string            `json:"expected"` // canonical targets, in input order
 	Callers     int                 `json:"callers"`
+	LongLine    bool                `json:"long_line,omitempty"`
+	Fat         bool                `json:"fat,omitempty"`
 	Sched       []int               `json:"-"`
 }
 
@@ -110,6 +112,20 @@ func genStreamCase(r *kit.Rng, format, work string, id int) streamCase {
 		n = r.Pick(20)
 	}
 	var sb strings.Builder
+	var jbuf bytes.Buffer
+	jenc := vegeta.NewJSONTargetEncoder(&jbuf) // one encoder for the whole file
+	longAt := -1
+	if n > 0 && r.Chance(0.15) {
+		longAt = r.Pick(n) // one line longer than bufio's 4096-byte buffer
+		sc.LongLine = true
+	}
+	// "fat" rounds: many lines of 1-2 KiB, so that the reader's buffer is refilled every few
+	// lines while other callers are still decoding theirs
+	fat := id%10 == 4 || id%10 == 5
+	if fat {
+		n = 100 + r.Pick(60)
+		sc.Fat = true
+	}
 	for i := 0; i < n; i++ {
 		method := r.PickStr([]string{"GET", "POST", "PUT", "DELETE"})
 		url := "http://host-" + strconv.Itoa(id) + ":8080/t/" + strconv.Itoa(i)
@@ -119,6 +135,12 @@ func genStreamCase(r *kit.Rng, format, work string, id int) streamCase {
 		var own [][2]string
 		for j := 0; j < r.Pick(4); j++ {
 			own = append(own, [2]string{r.PickStr(keys), r.PickStr(vals)})
+		}
+		if i == longAt {
+			own = append(own, [2]string{"X-Long", "L" + strings.Repeat("x", 4090+r.Pick(3000)) + "l"})
+		}
+		if fat {
+			own = append(own, [2]string{"X-Fat", strconv.Itoa(i) + strings.Repeat(string(rune('a'+i%26)), 1000+r.Pick(1000))})
 		}
 		var body []byte
 		if r.Chance(0.3) {
@@ -132,14 +154,14 @@ func genStreamCase(r *kit.Rng, format, work string, id int) streamCase {
 					t.Header[kv[0]] = append(t.Header[kv[0]], kv[1])
 				}
 			}
-			var buf bytes.Buffer
-			if err := vegeta.NewJSONTargetEncoder(&buf).Encode(&t); err != nil {
+			before := jbuf.Len()
+			if err := jenc.Encode(&t); err != nil {
 				panic(err)
 			}
 			if r.Chance(0.1) {
 				sb.WriteString(" \n\n")
 			}
-			sb.WriteString(buf.String())
+			sb.WriteString(string(jbuf.Bytes()[before:]))
 			// own values grouped per key (the JSON object groups them)
 			var grouped [][2]string
 			ks := make([]string, 0, len(t.Header))
@@ -155,7 +177,10 @@ func genStreamCase(r *kit.Rng, format, work string, id int) streamCase {
 			sc.Expected = append(sc.Expected, expectedTarget(method, url, body, grouped, &sc))
 		} else {
 			if r.Chance(0.2) {
-				sb.WriteString("\n# target " + strconv.Itoa(i) + "\n") // after a blank line: not directly behind a bare request line
+				if r.Chance(0.5) {
+					sb.WriteString("\n")
+				}
+				sb.WriteString("# target " + strconv.Itoa(i) + "\n")
 			}
 			sb.WriteString(method + " " + url + "\n")
 			for _, kv := range own {
@@ -173,7 +198,16 @@ func genStreamCase(r *kit.Rng, format, work string, id int) streamCase {
 		}
 	}
 	sc.Src = sb.String()
+	if format == "http" && r.Chance(0.3) {
+		sc.Src = strings.TrimSuffix(sc.Src, "\n") // the http format delivers an unterminated last line
+	}
 	sc.Callers = 1 + r.Pick(64)
+	if id%8 < 2 {
+		sc.Callers = 1
+	}
+	if fat {
+		sc.Callers = 32 + r.Pick(33)
+	}
 	return sc
 }
 
@@ -255,6 +289,23 @@ func runStream(s *kit.Summary, sc *streamCase) (implLine string) {
 		got = append(got, l.results...)
 		ex[g] = uint64(l.exhausted)
 		late += l.late
+	}
+	// one caller alone receives the targets in input order
+	if sc.Callers == 1 && len(logs) == 1 {
+		s.Count(sc.Format + ":single_caller_order_checked")
+		for i, e := range sc.Expected {
+			if i >= len(logs[0].results) || logs[0].results[i] != "ok "+e {
+				s.Violate(kit.Violation{Kind: "stream_order", What: "a single caller did not receive the stream's targets in input order", Input: sc,
+					Expected: fmt.Sprintf("result %d = %s", i, e), Observed: fmt.Sprint(clip(logs[0].results[min(i, len(logs[0].results)):]))})
+				break
+			}
+		}
+	}
+	if sc.LongLine {
+		s.Count(sc.Format + ":line>4096")
+	}
+	if sc.Fat {
+		s.Count(sc.Format + ":fat_round")
 	}
 	sort.Strings(got)
 	exp := make([]string, len(sc.Expected))
@@ -371,6 +422,13 @@ func runStatic(s *kit.Summary, sc staticCase) string {
 	tgts := make([]vegeta.Target, sc.K)
 	for i := range tgts {
 		tgts[i] = vegeta.Target{Method: "GET", URL: "http://static/" + strconv.Itoa(i)}
+		if i%2 == 1 {
+			tgts[i].Method = "POST"
+			tgts[i].Body = []byte("body-" + strconv.Itoa(i))
+		}
+		if i%3 != 0 {
+			tgts[i].Header = http.Header{"X-I": {strconv.Itoa(i)}}
+		}
 	}
 	tr := vegeta.NewStaticTargeter(tgts...)
 	per := make([][]string, sc.Callers)
@@ -395,7 +453,12 @@ func runStatic(s *kit.Summary, sc staticCase) string {
 				if err := tr(&t); err != nil {
 					per[g] = append(per[g], "err "+err.Error())
 				} else {
-					per[g] = append(per[g], t.URL)
+					// the whole target must be one of the given ones, not a mixture
+					if j, e := strconv.Atoi(strings.TrimPrefix(t.URL, "http://static/")); e == nil && j >= 0 && j < len(tgts) && showTarget(&t) != showTarget(&tgts[j]) {
+						per[g] = append(per[g], "mixed "+showTarget(&t))
+					} else {
+						per[g] = append(per[g], t.URL)
+					}
 				}
 			}
 		}(g)
@@ -420,13 +483,23 @@ func runStatic(s *kit.Summary, sc staticCase) string {
 		}
 	}
 	bad := other > 0
-	for j, cnt := range counts {
-		want := uint64(n / sc.K)
-		if j < n%sc.K {
-			want++
-		}
-		if cnt != want {
+	for _, cnt := range counts {
+		if cnt != uint64(n/sc.K) && cnt != uint64((n+sc.K-1)/sc.K) {
 			bad = true
+		}
+	}
+	// one caller alone sees the rotation itself: every draw is the successor of the one before
+	if sc.Callers == 1 && !bad {
+		s.Count("static:single_caller_order_checked")
+		prev := -1
+		for d, u := range per[0] {
+			i, _ := strconv.Atoi(strings.TrimPrefix(u, "http://static/"))
+			if prev >= 0 && i != (prev+1)%sc.K {
+				s.Violate(kit.Violation{Kind: "static_rotation_order", What: "a single caller did not receive the targets in rotation",
+					Input: sc, Expected: fmt.Sprintf("draw %d: target %d", d, (prev+1)%sc.K), Observed: fmt.Sprintf("target %d", i)})
+				break
+			}
+			prev = i
 		}
 	}
 	if bad {
@@ -463,6 +536,9 @@ func rounds(c *run.Ctx, s *kit.Summary, r *kit.Rng, nStatic, nStream int, withDr
 	st := &kit.Stream{Name: "c15.static"}
 	for i := 0; i < nStatic; i++ {
 		sc := staticCase{K: 1 + r.Pick(20), Callers: 1 + r.Pick(64), Draws: 1 + r.Pick(60)}
+		if i%8 == 0 {
+			sc.Callers = 1
+		}
 		line := runStatic(s, sc)
 		s.Case(fmt.Sprint("s:", sc), sc.Callers > 1 && sc.K > 1)
 		s.Count("static:rounds")
